@@ -1,88 +1,16 @@
 --------------------------- MODULE MC_Graphemes ---------------------------
-(* The table of Graphemes.tla: one TLC state per (alphabet, string source of at most MaxLen(alphabet)
-   symbols).  The state prints its table row: the value, its characters, every index and slice
-   (with failures), utf8 / toLower / hex, and for every needle (every contiguous fragment of the
-   source and of the value - aligned or not with the character boundaries - plus every single
-   symbol of a class-focused alphabet) the predicted contains / index / count / split /
-   replaceAll (= join of the split) / comparison / concatenation.  The laws of the specification
-   are a second invariant over the same states.  Symbols are single letters, so symbol sequences
-   print as short strings.
-
-   Rows of the full alphabet up to RankLen symbols also carry the rank of the value in the total
-   order of all such values (ordering and equality of every pair follow from the ranks; that the
-   ranks represent Less/Equal exactly is an assumption checked by TLC at start-up). *)
-EXTENDS Graphemes, Json
+(* Exhaustive table: one TLC state per (alphabet, string source of at most MaxLen(alphabet) symbols).
+   Every state prints its row (Judge); the laws of the specification are an invariant of every state
+   whose source has at most LawLen symbols (LawsHold). *)
+EXTENDS GraphemesTable
 CONSTANTS Alphas,            \* names of the alphabets to enumerate
           N, NFull,          \* maximal source length over a class-focused alphabet / over the full alphabet
-          RankLen            \* sources of the full alphabet up to this length are ranked
+          LawLen             \* the laws are checked on sources up to this length
 VARIABLES al, s
-
-RECURSIVE Str(_)
-Str(q) == IF q = << >> THEN "" ELSE Head(q) \o Str(Tail(q))
-StrAll(qs) == [i \in 1..Len(qs) |-> Str(qs[i])]
-
-\* alphabets: the full one and class-focused ones (6 and 5 symbols)
-SymsOf(a) == CASE a = "Full" -> AllSyms
-               [] a = "Marks6"  -> {"b", "E", "e", "d", "M", "S"}     \* NFC pairs, marks, a class-0 mark
-               [] a = "Emoji6"  -> {"b", "P", "Z", "S", "R", "M"}     \* emoji ZWJ sequences, flags
-               [] a = "Hangul6" -> {"L", "V", "T", "G", "H", "M"}     \* jamo / syllable composition
-               [] a = "Lines6"  -> {"C", "F", "b", "M", "Z", "R"}     \* CR LF against extenders
-               [] a = "Marks5"  -> {"b", "E", "d", "M", "S"}
-               [] a = "Emoji5"  -> {"b", "P", "Z", "S", "R"}
-               [] a = "Hangul5" -> {"L", "V", "T", "G", "M"}
-               [] a = "Lines5"  -> {"C", "F", "b", "M", "R"}
-\* replacement / separator sources used with replaceAll and join
-ReplOf(a) == CASE a = "Full" -> << << >>, <<"M">> >>
-               [] a \in {"Marks6", "Marks5"}   -> << << >>, <<"M">>, <<"e">> >>
-               [] a \in {"Emoji6", "Emoji5"}   -> << << >>, <<"Z">>, <<"R">> >>
-               [] a \in {"Hangul6", "Hangul5"} -> << << >>, <<"V">>, <<"T">> >>
-               [] a \in {"Lines6", "Lines5"}   -> << << >>, <<"F">>, <<"M">> >>
 MaxLen(a) == IF a = "Full" THEN NFull ELSE N
-ReplVals == [a \in Alphas |-> [r \in 1..Len(ReplOf(a)) |-> Chars(ReplOf(a)[r])]]
-
-\* the facts about the alphabet, printed once for the driver's validation against the Unicode libraries
-ASSUME PrintT(ToJson([alphabet |-> [x \in AllSyms |-> [cp |-> CP(x), class |-> Class(x), ccc |-> CCC(x), decomp |-> Str(Decomp(x)),
-                                                       lower |-> Lower(x), hex |-> HexVal(x)]]]))
-
-Frags(q) == {SubSeq(q, i, j) : i \in 1..Len(q), j \in 1..Len(q)} \ {<< >>}
-Needles(a, src) == Frags(src) \cup Frags(Norm(src)) \cup (IF a = "Full" THEN {} ELSE {<<x>> : x \in SymsOf(a)})
-
-\* ---- ranks over the full alphabet
-RECURSIVE SrcsUpTo(_)
-SrcsUpTo(k) == IF k = 0 THEN {<< >>} ELSE LET P == SrcsUpTo(k - 1) IN P \cup {Append(q, x) : q \in P, x \in AllSyms}
-RankTexts == {Norm(q) : q \in SrcsUpTo(RankLen)}
-RankTable == [v \in RankTexts |-> Cardinality({w \in RankTexts : LessCP(w, v)})]
-ASSUME RanksAreTheOrder ==
-  \A v \in RankTexts : \A w \in RankTexts : /\ (RankTable[v] < RankTable[w]) <=> LessCP(v, w)
-                                            /\ (RankTable[v] = RankTable[w]) <=> (v = w)
-
-NRow(h, nsrc, repl) ==
-  LET n == Chars(nsrc)  sp == Split(h, n)  cc == Concat(h, n) IN
-  [n |-> Str(nsrc), nv |-> Str(Text(n)), c |-> Contains(h, n), i |-> IndexOf(h, n), k |-> Count(h, n),
-   sp |-> [p \in 1..Len(sp) |-> Str(Text(sp[p]))],
-   rp |-> [r \in 1..Len(repl) |-> Str(Text(ReplaceAll(h, n, repl[r])))],
-   cmp |-> Cmp(h, n), cc |-> Str(Text(cc)), ccl |-> Length(cc)]
-
-Row(a, src) ==
-  LET h == Chars(src)  len == Length(h)  lo == ToLower(h)  u8 == Utf8(h) IN
-  [al |-> a, s |-> Str(src), v |-> Str(Text(h)), cl |-> StrAll(h),
-   ix |-> [i \in 1..(len + 2) |-> IF CharAtFails(h, i - 2) THEN "!" ELSE Str(CharAt(h, i - 2))],             \* h[-1] .. h[len]
-   sl |-> [f \in 1..(len + 3) |-> [t \in 1..(len + 3) |->                                                     \* from, upTo in -1 .. len+1
-             IF SliceFails(h, f - 2, t - 2) THEN "!" ELSE Str(Text(Slice(h, f - 2, t - 2)))]],
-   u8 |-> u8, lo |-> Str(Text(lo)), lol |-> Length(lo), hx |-> EncodeHex(u8),
-   dh |-> IF DecodeHexFails(h) THEN <<-1>> ELSE DecodeHex(h),
-   rk |-> IF a = "Full" /\ Len(src) <= RankLen THEN RankTable[Text(h)] ELSE -1,
-   rs |-> [r \in 1..Len(ReplOf(a)) |-> Str(ReplOf(a)[r])],
-   nd |-> {NRow(h, x, ReplVals[a]) : x \in Needles(a, src)}]
-
-Laws(a, src) == LET h == Chars(src) IN
-                /\ SegmentationLaws(src) /\ SegmentationLaws(Norm(src)) /\ NormLaws(src)
-                /\ \A x \in Needles(a, src) : NeedleLaws(h, Chars(x))
-                /\ \A r \in 1..Len(ReplOf(a)) : SegmentationLaws(Norm(ReplOf(a)[r]))
-
 Init == al \in Alphas /\ s = << >>
 Next == Len(s) < MaxLen(al) /\ \E x \in SymsOf(al) : s' = Append(s, x) /\ al' = al
 Spec == Init /\ [][Next]_<<al, s>>
 Judge == PrintT(ToJson(Row(al, s)))
-LawsHold == Laws(al, s)
+LawsHold == Len(s) <= LawLen => Laws(al, s)
 =============================================================================
